@@ -110,8 +110,16 @@ def gen_case(r, auto=None, profile=None):
                 init = r.choice(nonflt) if y < 0.12 else None
                 force = 0.12 <= y < 0.2 or (init is not None and r.random() < 0.3)
                 hist.append(["engage", init, force])
-                if r.random() < 0.05:
+                z = r.random()
+                if z < 0.05:
                     hist.append(["engage", None, False])
+                elif z < 0.13:
+                    # the machine is stopped (or a duration edited) after engage() but before the iteration
+                    hist.append(r.choice([["done"], ["ondisable"]]))
+                    if r.random() < 0.3:
+                        hist.append(["engage", None, False])
+                elif z < 0.16 and timed_ids:
+                    hist.append(["setdur", r.choice(timed_ids), r.choice([0, 1, 2, 4, 8, 16])])
             t += r.choice(steps)
             hist.append(["execute", t])
     return dict(n=n, first=first, default=default, states={str(k): v for k, v in states.items()},
@@ -512,15 +520,18 @@ def oracle(case, obs):
                 pending[s] = False
                 last[s] = (tm, stm, eng)
         if is_iter:
-            if requested and had_state and not auto and not seen_done:
+            user_done = any(a[0] == "done" for c in calls if c[6] < len(case["scripts"]) for a in case["scripts"][c[6]])
+            if requested and had_state and not auto and not user_done:
                 if len(calls) != 1 + nnow:
                     out.append(("C01", "op %d %r: requested iteration ran %d state functions with %d next_state_now()" % (opi, op, len(calls), nnow)))
             if not requested and all(c[1] == default for c in calls) and is_exec:
-                out.append(("C01", "op %d %r: no engage(), no must_finish state ran, but the machine is still executing" % (opi, op)))
+                msg = "op %d %r: no engage(), no must_finish state ran, but the machine is still executing" % (opi, op)
+                out.append(("C01", msg))
+                out.append(("C04", msg + " (it did not stop: is_executing should be False, done() invoked)"))
             if is_exec and cur is None:
                 out.append(("C04", "op %d %r: is_executing is True but current_state is ''" % (opi, op)))
             requested = False
-        if not is_exec and cur is not None and kind not in ("engage",):
+        if not is_exec and cur is not None and kind in ("execute", "aiter"):
             out.append(("C04", "op %d %r: is_executing is False but current_state is s%d" % (opi, op, cur)))
         if prev_exec and not is_exec and ndone == 0:
             out.append(("C04", "op %d %r: the machine stopped without done() being invoked" % (opi, op)))
@@ -541,6 +552,41 @@ def oracle(case, obs):
             last.clear() if False else None
         prev_exec = is_exec
     out += oracle_chain(case, obs)
+    out += oracle_auto(case, obs)
+    return out
+
+
+def oracle_auto(case, obs):
+    """C13 clauses that hold for every user code (no usage contract): an AutonomousStateMachine driven
+    through its lifecycle runs nothing while its latch is off, and once done() was invoked in an
+    on_iteration it is stopped after it."""
+    out = []
+    if not (case["auto"] and case["hist"] and case["hist"][0][0] == "aenable"):
+        return out
+    if any(op[0] not in ("aenable", "aiter", "adisable", "setdur") for op in case["hist"]):
+        return out
+    latch = False
+    for opi, (op, (evs, is_exec, cur)) in enumerate(zip(case["hist"], obs)):
+        if any(e[0] == "err" for e in evs):
+            break
+        kind = op[0]
+        if kind == "aenable":
+            latch = True
+        elif kind == "adisable":
+            latch = False
+            if is_exec:
+                out.append(("C13", "op %d: is_executing is True after on_disable()" % opi))
+        elif kind == "aiter":
+            if not latch:
+                if evs:
+                    out.append(("C13", "op %d %r: the machine had stopped (no on_enable() since) but on_iteration ran %r" % (opi, op, evs[:3])))
+                if is_exec:
+                    out.append(("C13", "op %d %r: is_executing is True although the machine had stopped" % (opi, op)))
+            else:
+                if any(e[0] == "done" for e in evs) and is_exec:
+                    out.append(("C13", "op %d %r: done() was invoked during on_iteration but the machine is still executing" % (opi, op)))
+                if not is_exec:
+                    latch = False
     return out
 
 
